@@ -142,6 +142,61 @@ fn class_of(n: u32) -> NodeClass {
     }
 }
 
+/// VariableAttributes with every mandatory field; `dims_bit_without_dims`: the ArrayDimensions bit
+/// is set in specified_attributes but the array itself is null
+fn variable_attrs(dims_bit_without_dims: bool) -> ExtensionObject {
+    let mut mask = AttributesMask::DISPLAY_NAME
+        | AttributesMask::ACCESS_LEVEL
+        | AttributesMask::USER_ACCESS_LEVEL
+        | AttributesMask::DATA_TYPE
+        | AttributesMask::HISTORIZING
+        | AttributesMask::VALUE
+        | AttributesMask::VALUE_RANK;
+    if dims_bit_without_dims {
+        mask |= AttributesMask::ARRAY_DIMENSIONS;
+    }
+    ExtensionObject::from_encodable(
+        ObjectId::VariableAttributes_Encoding_DefaultBinary,
+        &VariableAttributes {
+            specified_attributes: mask.bits(),
+            display_name: LocalizedText::from("d"),
+            description: LocalizedText::null(),
+            write_mask: 0,
+            user_write_mask: 0,
+            value: Variant::Int32(1),
+            data_type: DataTypeId::Int32.into(),
+            value_rank: -1,
+            array_dimensions: None,
+            access_level: 1,
+            user_access_level: 1,
+            minimum_sampling_interval: 0.0,
+            historizing: false,
+        },
+    )
+}
+
+fn variable_type_attrs(dims_bit_without_dims: bool) -> ExtensionObject {
+    let mut mask = AttributesMask::DISPLAY_NAME | AttributesMask::IS_ABSTRACT | AttributesMask::DATA_TYPE | AttributesMask::VALUE_RANK;
+    if dims_bit_without_dims {
+        mask |= AttributesMask::ARRAY_DIMENSIONS;
+    }
+    ExtensionObject::from_encodable(
+        ObjectId::VariableTypeAttributes_Encoding_DefaultBinary,
+        &VariableTypeAttributes {
+            specified_attributes: mask.bits(),
+            display_name: LocalizedText::from("d"),
+            description: LocalizedText::null(),
+            write_mask: 0,
+            user_write_mask: 0,
+            value: Variant::Empty,
+            data_type: DataTypeId::Int32.into(),
+            value_rank: -1,
+            array_dimensions: None,
+            is_abstract: false,
+        },
+    )
+}
+
 fn attrs_for(cls: u32) -> ExtensionObject {
     match cls {
         1 => ExtensionObject::from_encodable(
@@ -155,6 +210,8 @@ fn attrs_for(cls: u32) -> ExtensionObject {
                 event_notifier: 0,
             },
         ),
+        2 => variable_attrs(false),
+        16 => variable_type_attrs(false),
         8 => ExtensionObject::from_encodable(
             ObjectId::ObjectTypeAttributes_Encoding_DefaultBinary,
             &ObjectTypeAttributes {
@@ -407,6 +464,8 @@ impl S {
         let node_attributes = match t[8] {
             "ok" => attrs_for(cls),
             "null" => ExtensionObject::null(),
+            "vdim" => variable_attrs(true),
+            "tdim" => variable_type_attrs(true),
             "junk" => {
                 let mut e = attrs_for(1);
                 if let ExtensionObjectEncoding::ByteString(ref mut b) = e.body {
@@ -1489,7 +1548,9 @@ impl Prop for C33 {
                 }
                 _ => {}
             }
-            out.push(if rng.chance(1, 12) { "reset ro".to_string() } else { "reset".to_string() });
+            let read_only = rng.chance(1, 12);
+            let mut added_cls: Vec<u32> = Vec::new();
+            out.push(if read_only { "reset ro".to_string() } else { "reset".to_string() });
             let len = if tier == Tier::Thorough { rng.range(3, 40) } else { rng.range(3, 20) };
             // (browse name, parent) pairs and AddReferences ops issued so far, to repeat some of them
             let mut used_names: Vec<(String, String)> = Vec::new();
@@ -1510,7 +1571,7 @@ impl Prop for C33 {
                 match rng.weighted(&[10, 7, 1, 12, 2, 3]) {
                     0 => {
                         // AddNodes with one item, mostly sensible
-                        let cls = *rng.pick(&[1u32, 1, 1, 8, 32, 32, 2, 4, 16, 64, 128, 0]);
+                        let cls = *rng.pick(&[1u32, 1, 1, 8, 32, 32, 2, 2, 4, 16, 64, 128, 0]);
                         let reqid = match rng.weighted(&[4, 5, 1, 1, 1, 1, 1]) {
                             0 => "-".to_string(),
                             1 => {
@@ -1558,11 +1619,13 @@ impl Prop for C33 {
                             _ => "s58".to_string(),
                         };
                         let attrs = match (cls, rng.weighted(&[10, 1, 1, 1, 1])) {
-                            (1, 0) | (8, 0) | (32, 0) => "ok".to_string(),
+                            (2, 0) if rng.chance(1, 3) => "vdim".to_string(),
+                            (16, 0) if rng.chance(1, 3) => "tdim".to_string(),
+                            (1, 0) | (2, 0) | (8, 0) | (16, 0) | (32, 0) => "ok".to_string(),
                             (_, 1) => "null".to_string(),
                             (_, 2) => "junk".to_string(),
                             (_, 3) => "mask0".to_string(),
-                            _ => format!("c{}", rng.pick(&[1u32, 8, 32])),
+                            _ => (*rng.pick(&["c1", "c8", "c32", "c2", "c16", "vdim", "tdim"])).to_string(),
                         };
                         let sidx = if rng.chance(1, 15) { 1 } else { 0 };
                         let psidx = match rng.weighted(&[12, 1, 1]) {
@@ -1571,9 +1634,40 @@ impl Prop for C33 {
                             _ => u32::MAX,
                         };
                         out.push(format!("addnode {} {} {} {} {} {} {} {} {}", reqid, sidx, cls, bn, parent, psidx, rt, td, attrs));
-                        nadded += 1;
+                        // `nadded` estimates how many nodes the case has added: an AddNodes counts when
+                        // everything about it looks valid (the a<k> tokens of later ops aim below it)
+                        let likely_good = !read_only
+                            && sidx == 0
+                            && psidx != u32::MAX
+                            && (reqid == "-" || reqid.starts_with("fr"))
+                            && bn.contains(':')
+                            && !bn.ends_with(":0") && !bn.ends_with(":1") && !bn.ends_with(":2")
+                            && (parent.starts_with('s') || parent.starts_with('o'))
+                            && (rt == "35" || rt == "47" || rt == "39")
+                            && (attrs == "ok" || attrs == "vdim" && cls == 2 || attrs == "tdim" && cls == 16)
+                            && [1u32, 2, 8, 16, 32].contains(&cls)
+                            && match cls {
+                                1 => td == "s58",
+                                2 => td == "s63",
+                                _ => td == "-",
+                            };
+                        if likely_good {
+                            added_cls.push(cls);
+                            nadded += 1;
+                        }
                     }
                     1 => {
+                        if nadded > 0 && rng.chance(1, 8) {
+                            // the HasTypeDefinition reference AddNodes made for an Object / Variable, again
+                            let k = rng.below(nadded) as usize;
+                            let (td, tc) = match added_cls.get(k) {
+                                Some(1) => ("s58", 8),
+                                Some(2) => ("s63", 16),
+                                _ => if rng.chance(1, 2) { ("s58", 8) } else { ("s63", 16) },
+                            };
+                            out.push(format!("addref a{} {} 0 1 {} 40 1", k, td, tc));
+                            continue;
+                        }
                         let own = |rng: &mut Rng, nadded: u64| -> String {
                             if nadded > 0 && rng.chance(1, 2) { format!("a{}", rng.below(nadded + 1)) } else { format!("o{}", rng.below(3)) }
                         };
@@ -1819,6 +1913,10 @@ impl Runner for R {
                             _ => 0,
                         };
                         let r = st.call(m);
+                        if std::env::var("VERIF_RQ_STATS").is_ok() {
+                            // debugging aid: how far do the generated requests get?
+                            eprintln!("RQ {} {}", kind, rq_outcome(&r));
+                        }
                         if let Some(SupportedMessage::AddReferencesResponse(ref r)) = r {
                             for (x, it) in r.results.iter().flatten().zip(ref_items.iter()) {
                                 if x.is_good() {
@@ -2000,6 +2098,35 @@ impl Runner for R {
             _ => "-".to_string(),
         };
         Verdict::fail("no_panic", &class, "the server panicked while serving this request")
+    }
+}
+
+/// coarse outcome of a generated request (only for the VERIF_RQ_STATS debugging aid)
+fn rq_outcome(r: &Option<SupportedMessage>) -> String {
+    fn first(v: &Option<Vec<StatusCode>>) -> String {
+        match v {
+            None => "no-results".to_string(),
+            Some(v) if v.is_empty() => "empty-results".to_string(),
+            Some(v) => v[0].name().to_string(),
+        }
+    }
+    match r {
+        None => "no-response".to_string(),
+        Some(SupportedMessage::ServiceFault(f)) => format!("fault-{}", f.response_header.service_result.name()),
+        Some(SupportedMessage::CreateMonitoredItemsResponse(r)) => first(&r.results.as_ref().map(|v| v.iter().map(|x| x.status_code).collect())),
+        Some(SupportedMessage::ModifyMonitoredItemsResponse(r)) => first(&r.results.as_ref().map(|v| v.iter().map(|x| x.status_code).collect())),
+        Some(SupportedMessage::SetMonitoringModeResponse(r)) => first(&r.results),
+        Some(SupportedMessage::SetTriggeringResponse(r)) => format!("add-{} remove-{}", first(&r.add_results), first(&r.remove_results)),
+        Some(SupportedMessage::DeleteMonitoredItemsResponse(r)) => first(&r.results),
+        Some(SupportedMessage::CallResponse(r)) => first(&r.results.as_ref().map(|v| v.iter().map(|x| x.status_code).collect())),
+        Some(SupportedMessage::WriteResponse(r)) => first(&r.results),
+        Some(SupportedMessage::SetPublishingModeResponse(r)) => first(&r.results),
+        Some(SupportedMessage::DeleteSubscriptionsResponse(r)) => first(&r.results),
+        Some(SupportedMessage::TransferSubscriptionsResponse(r)) => first(&r.results.as_ref().map(|v| v.iter().map(|x| x.status_code).collect())),
+        Some(SupportedMessage::ReadResponse(r)) => first(&r.results.as_ref().map(|v| v.iter().map(|x| x.status.unwrap_or(StatusCode::Good)).collect())),
+        Some(SupportedMessage::BrowseResponse(r)) => first(&r.results.as_ref().map(|v| v.iter().map(|x| x.status_code).collect())),
+        Some(SupportedMessage::BrowseNextResponse(r)) => first(&r.results.as_ref().map(|v| v.iter().map(|x| x.status_code).collect())),
+        Some(_) => "response".to_string(),
     }
 }
 
